@@ -12,7 +12,7 @@
    [serve_allowed r m p] the responses ServeHTTP may give depending on the order in
    which Go iterates its maps, [serve r m p] the first of them. *)
 From Coq Require Import List String Ascii Bool ZArith.
-From GZ Require Import C09.Model C09.Spec C09.Proofs C09.ServerModel C09.ServerProofs.
+From GZ Require Import C09.Model C09.Spec C09.Proofs C09.ServerModel C09.ServerProofs C09.Check C09.SpecProofs.
 Import ListNotations.
 Open Scope string_scope.
 
@@ -343,3 +343,93 @@ Example ex_server_duplicate_across_mounts :
   /\ spec_start [default_cfg] [ex_users] [EMount (mkMount 0 0 0 3 false None []); EStart 0] 0
      = StartFailed RegInvalidPath.
 Proof. vm_compute. repeat split; reflexivity. Qed.
+
+(* ====================================================================== the executable specs
+   [spec_serve] (best_of / binds / allow_spec over the plain route list) and the boolean
+   judgement [prop_ok] applies to responses observed on the Go code are not oracles: *)
+
+(* the executable reference matcher picks a best route, and finds one whenever there is one *)
+Theorem best_of_is_best : forall T m segs t, best_of T m segs = Some t -> is_best T m segs t.
+Proof. exact best_of_sound. Qed.
+Print Assumptions best_of_is_best.
+
+Theorem best_of_finds_one : forall T m segs t, is_best T m segs t -> exists t', best_of T m segs = Some t'.
+Proof. exact best_of_complete. Qed.
+Print Assumptions best_of_finds_one.
+
+(* the search-tree router with backtracking REFINES the declarative reference: inside the side
+   condition ServeHTTP answers exactly what spec_serve computes from the route list (same
+   handler, same variables, same status; the Allow list up to order) *)
+Theorem router_answers_spec_serve : forall nf na regs m p,
+  one_var_name_per_position (table_of regs) = true ->
+  resp_equiv (serve (router_of nf na regs) m p) (spec_serve (table_of regs) nf na m p).
+Proof. exact L_serve_is_spec. Qed.
+Print Assumptions router_answers_spec_serve.
+
+(* the judgement of an observed response IS the case table [obs_ok] (= resp_ok with the
+   variables clause in the form observable on a map) *)
+Theorem judgement_is_the_case_table : forall T nf na q segs, clean_path (qp q) = Some segs ->
+  (response_ok T nf na q = true <-> obs_ok T nf na (qm q) segs (qres q)).
+Proof. exact L_response_ok_iff. Qed.
+Print Assumptions judgement_is_the_case_table.
+
+Theorem judgement_unrooted : forall T nf na q, clean_path (qp q) = None ->
+  (response_ok T nf na q = true <-> qres q = (if nf then RNotFoundCustom else RNotFound)).
+Proof. exact L_response_ok_unrooted. Qed.
+Print Assumptions judgement_unrooted.
+
+Theorem case_table_implies_observable_form : forall T nf na m segs resp,
+  resp_ok T nf na m segs resp -> obs_ok T nf na m segs resp.
+Proof. exact L_resp_ok_obs_ok. Qed.
+Print Assumptions case_table_implies_observable_form.
+
+(* for a pattern with pairwise distinct names the observable variables clause is exact *)
+Theorem observable_vars_exact_for_distinct_names : forall ps pat segs,
+  matches pat segs -> NoDup (var_names pat) -> params_spec ps pat segs ->
+  forall kv, In kv ps <-> In kv (raw_binds pat segs).
+Proof. exact params_spec_distinct. Qed.
+Print Assumptions observable_vars_exact_for_distinct_names.
+
+(* no false alarm: every response the verified model can give passes the judgement *)
+Theorem model_passes_judgement : forall nf na regs q,
+  In (qres q) (serve_allowed (router_of nf na regs) (qm q) (qp q)) ->
+  response_ok (table_of regs) nf na q = true.
+Proof. exact L_model_passes_judgement. Qed.
+Print Assumptions model_passes_judgement.
+
+(* prop_ok of a router case, unfolded *)
+Theorem prop_ok_router_meaning : forall c,
+  r_prop_ok c = true <->
+  (one_var_name_per_position (table_of (cregs c)) = true ->
+   cregobs c = reg_results [] (cregs c) /\
+   Forall (req_judged (table_of (cregs c)) (cnf c) (cna c)) (creqs c)).
+Proof. exact L_r_prop_ok_iff. Qed.
+Print Assumptions prop_ok_router_meaning.
+
+(* server cases: what the verified registration + router model answers passes the judgement that
+   is computed from the user's tables only; and a passing judgement means the case table *)
+Theorem server_model_passes_judgement : forall s q r,
+  start_of (wstarts (run opt_real (scfgs s) (stables s) (sevents s))) (sqs q) = Some (Started r) ->
+  let c := nth (sqs q) (scfgs s) default_cfg in
+  In (sqres q) (sserve_allowed (sc_cors c) r (sqm q) (sqp q)) ->
+  mws_ok c q = true ->
+  sreq_ok s q = true.
+Proof. exact L_server_model_passes. Qed.
+Print Assumptions server_model_passes_judgement.
+
+Theorem server_judgement_means : forall s q segs resp,
+  server_in_scope s (sqs q) = true ->
+  let c := nth (sqs q) (scfgs s) default_cfg in
+  sc_cors c = false -> sqres q = SResp resp -> clean_path (sqp q) = Some segs ->
+  sreq_ok s q = true ->
+  all_ok (reg_results [] (user_regs s (sqs q))) /\
+  obs_ok (table_of (user_regs s (sqs q))) (sc_nf c) (sc_na c) (sqm q) segs resp /\
+  mws_ok c q = true.
+Proof. exact L_server_judgement_means. Qed.
+Print Assumptions server_judgement_means.
+
+Example ex_spec_serve :
+  spec_serve (table_of ex_regs) false false "GET" "/a//a/./b/" = RHandler 0%Z [("y", "a")]
+  /\ spec_serve (table_of ex_regs) false false "PUT" "/a/a/b" = RNotAllowed ["GET"; "POST"]
+  /\ spec_serve (table_of ex_regs) false false "GET" "/zz" = RNotFound.
+Proof. vm_compute. repeat split. Qed.
